@@ -720,6 +720,50 @@ func responseWriterRules(c *Ctx, prop string) {
 	if fe == nil {
 		return
 	}
+	// status line of the error response: the code that was asked for, whatever it is (a callback
+	// may reject with a redirect as well as with a 4xx/5xx)
+	{
+		heads := map[int64]string{400: "textHeadBadRequest", 500: "textHeadInternalServerError", 426: "textHeadUpgradeRequired"}
+		var p4 []string
+		for _, code := range []int64{101, 200, 302, 307, 399, 400, 401, 403, 426, 499, 500, 503, 599} {
+			code := code
+			m := c.machine()
+			addTextWriterModels(m)
+			m.Models[ws+".writeStatusText"] = func(cl *fold.Call) fold.Val {
+				cl.M.Emit(fold.Effect{Kind: "call", Name: "writeStatusText", Args: cl.Args[1:]})
+				return nil
+			}
+			m.Models[ws+".writeErrorText"] = func(cl *fold.Call) fold.Val { return nil }
+			ps := m.Explore(fe, func(mm *fold.Machine) []fold.Val {
+				return []fold.Val{fold.Sym{Name: "bw", NonNil: true}, fold.Iface{V: fold.Sym{Name: "callback-error", NonNil: true}}, fold.K(code), fold.Nil{}}
+			}, func(mm *fold.Machine, p *fold.Path) {
+				first := ""
+				for _, e := range p.Effects {
+					if e.Kind == "text" {
+						first = "text:" + fold.Show(e.Args[0])
+						break
+					}
+					if e.Kind == "call" && e.Name == "writeStatusText" {
+						first = "status:" + fold.Show(e.Args[0])
+						break
+					}
+				}
+				if h, ok := heads[code]; ok {
+					if !strings.Contains(first, h) && first != "status:"+fmt.Sprint(code) {
+						p4 = append(p4, fmt.Sprintf("an error response with status %d starts with %s", code, first))
+					}
+				} else if first != "status:"+fmt.Sprint(code) {
+					p4 = append(p4, fmt.Sprintf("an error response with status %d starts with %s: the status the callback asked for is not the one sent", code, first))
+				}
+			})
+			for _, p := range ps {
+				if p.Abort != "" || p.Panic {
+					p4 = append(p4, "undecided: "+p.Abort+panicNote(p))
+				}
+			}
+		}
+		c.verdict(rule, rule+"/error-status-line", c.P.FuncPos(fe), uniq(p4), "the status line carries the requested code for 13 codes from 101 to 599")
+	}
 	pk := c.P.ByPath[ws]
 	tailOf := map[string]string{} // text var -> error ident it was generated from
 	for _, file := range pk.Syntax {
